@@ -154,11 +154,11 @@ func checkPair(sys relSys, x, y string, srcX, srcY string) (v verdict) {
 	res := map[string][2]tri{}
 	var out []string
 	desc := func(p string, swapped bool) string {
-		a, b := srcX, srcY
+		a, b, fa, fb := srcX, srcY, fx, fy
 		if swapped {
-			a, b = b, a
+			a, b, fa, fb = b, a, fb, fa
 		}
-		return fmt.Sprintf("(%s x y) with x = %s [%s], y = %s [%s]%s", p, a, fx, b, fy, map[bool]string{true: " (x and y are the same object)", false: " (separately built objects)"}[same])
+		return fmt.Sprintf("(%s x y) with x = %s [%s], y = %s [%s]%s", p, a, fa, b, fb, map[bool]string{true: " (x and y are the same object)", false: " (separately built objects)"}[same])
 	}
 	anyTrue := false
 	for _, p := range preds {
@@ -168,12 +168,10 @@ func checkPair(sys relSys, x, y string, srcX, srcY string) (v verdict) {
 		out = append(out, p+"="+a.String()+"/"+b.String())
 		for i, r := range []tri{a, b} {
 			if r.v == -1 {
-				k1, k2, f1, f2 := kx, ky, fx, fy
+				k1, k2 := kx, ky
 				if i == 1 {
-					k1, k2, f1, f2 = ky, kx, fy, fx
+					k1, k2 = ky, kx
 				}
-				_ = f2
-				_ = f1
 				v.fail(fmt.Sprintf("rel=%s result=%s x=%s y=%s", p, r.why, k1, relY(k1, k2)),
 					desc(p, i == 1)+" => "+r.msg+"; a predicate must answer t or nil")
 				v.hits = append(v.hits, "pred-no-answer")
